@@ -8,11 +8,16 @@ props = [json.loads(l) for l in open(os.path.join(V, "properties.jsonl")) if l.s
 checks_src = json.load(open(os.path.join(V, "harness", "checks.json")))
 nc_path = os.path.join(V, "harness", "not_claimed.json")
 not_claimed = json.load(open(nc_path)) if os.path.exists(nc_path) else {}
+import glob
+for extra in sorted(glob.glob(os.path.join(V, "harness", "checks.d", "*.json"))):
+    for k, v in json.load(open(extra)).items():
+        checks_src.setdefault(k, v)
 tsv = {}
-for l in open(os.path.join(V, "harness", "props.tsv")):
-    f = l.split()
-    if f:
-        tsv[f[0]] = f
+for path in [os.path.join(V, "harness", "props.tsv")] + sorted(glob.glob(os.path.join(V, "harness", "props.d", "*.tsv"))):
+    for l in open(path):
+        f = l.split()
+        if f and not f[0].startswith("#"):
+            tsv.setdefault(f[0], f)
 
 checks, na = [], []
 for p in props:
